@@ -41,10 +41,10 @@ type entry struct {
 
 type Sys struct {
 	Keys, Vals, MaxIters int
-	m     *iterable.Map[int, int]
-	its   []iterable.Iterator[iterable.MapEntry[int, int]]
-	log   []entry
-	cur   []int // model cursor per slot, -1 closed
+	m                    *iterable.Map[int, int]
+	its                  []iterable.Iterator[iterable.MapEntry[int, int]]
+	log                  []entry
+	cur                  []int // model cursor per slot, -1 closed
 }
 
 func New(keys, vals, iters int) *Sys {
